@@ -35,9 +35,10 @@ def out_key(c, clause):
             # than what the program does): it reads them as instructions, which are not the executed ones
             return 'out:overlap-warning:rst-arguments-not-as-configured'
         e, ln = ctldrv.is_end_at(c['image'], x - c['org'])
-        if c.get('rst_endlike') and c['map'] and x in c['map'] and e and ln > y - x:
-            # -r and -m, an argument (as configured) that reads as a jump/return: a directive inside an EXECUTED multi-byte jump/return
-            return 'out:overlap-warning:rst-argument-walk:directive-inside-executed-jump'
+        if y in c.get('rst_walk_ends', ()) and e and ln > y - x:
+            # -r and -m: a directive where a jump/return ends that is found by reading on from the first argument byte of an executed
+            # RST (arguments as configured), inside another multi-byte jump/return
+            return 'out:overlap-warning:rst-argument-walk:directive-inside-jump'
     return key
 
 
@@ -91,6 +92,7 @@ def run(tier):
     rep.extra['rst_runs_r_and_m_argument_reads_as_jump_or_return'] = sum(1 for c in rm if c['rst_endlike'])
     rep.extra['rst_runs_r_and_m_argument_jump_ends_inside_next_instruction'] = sum(1 for c in rm if c['rst_sharp'])
     rep.extra['rst_runs_r_and_m_word_argument'] = sum(1 for c in rm if c['rst_handled'] and ':W' in c['rstcfg'])
+    rep.extra['rst_argument_straddles_end(not judged)'] = sum(c.get('rst_argument_straddles_end', 0) for c in out)
     rep.extra['rst_runs_m_without_r'] = sum(1 for c in out if c['image_kind'] == 'rst' and c['map'] and id(c) not in rm_ids and c['rst_sites'])
     for k in ('rst_runs_r_and_m_opcode_like_argument', 'rst_runs_r_and_m_argument_jump_ends_inside_next_instruction',
               'rst_runs_r_and_m_word_argument', 'rst_runs_m_without_r'):
@@ -117,7 +119,9 @@ def run(tier):
     rep.rule = ('ft: random abstract images (instruction lengths 1-3, END flags) x directive maps x (from, limit, ctl) through the '
                 'real _find_terminal_instruction vs CtlGen!FindTerminal; out: image classes x ranges (incl. ending mid-instruction) '
                 'x code maps in 5 formats from real simulator traces or arbitrary address sets x options -h/-l/-C/-r/Text*; plus every '
-                'opcode slot (1792) once in straight-line images with -C; '
+                'opcode slot (1792) once in straight-line images with -C; rst: programs whose RST routines step over 1/2 inline argument '
+                'bytes (values mostly opcodes of jumps/returns, followed by 2-4 byte instructions), traced with those routines, x -m in 5 '
+                'formats / none x -r / none x RSTHandlerConfig (skoolkit.ini: as the program does, default 8:B, something else); '
                 'distinct_nontrivial = distinct inputs')
     rmworkdir('c14')
     return rep.finish()
